@@ -127,6 +127,8 @@ func AbstractBody(b []byte) Body {
 					}
 				case "n":
 					switch nv := v.(type) {
+					case nil:
+						o["n"] = "null" // an explicit JSON null
 					case string:
 						if nv == "-" || nv == "{}" {
 							ok = false
@@ -184,6 +186,8 @@ func ConcreteBody(tok string) []byte {
 		return []byte(`{"a":"s1","v":"J2"}`)
 	case "J3":
 		return []byte(`{"n":{"x":"s2"},"v":"J3"}`)
+	case "J4":
+		return []byte(`{"n":null,"v":"J4"}`)
 	case "R1":
 		return []byte("R1;")
 	case "R2":
